@@ -115,28 +115,26 @@ def check(model: Model, run: Run) -> None:
 
     # ------------------------------------------------------------------ R2 width selection
     run.rule('C16.R2', 'value widths: a value below 2^8 takes 1 byte, below 2^16 2 bytes, else 4; rewop is the inverse of power (1,2,4,8 <-> 0..3) and the length bits sit at <<4', floor=5)
-    for cname, want in ((FLOWMOD + '.IOperationByte', [(None, 1)]), (FLOWMOD + '.IOperationByteShort', [(256, 1), (None, 2)]), (FLOWMOD + '.IOperationByteShortLong', [(256, 1), (65536, 2), (None, 4)])):
+    # decided by evaluating the encoders at the width boundaries: which spelling of the thresholds is used does not matter
+    from ..evalfn import eval_function
+    import struct as _struct
+
+    def shortest(v: int, widths: tuple[int, ...]) -> tuple[int, bytes]:
+        for w in widths:
+            if v < 1 << (8 * w) or w == widths[-1]:
+                return w, v.to_bytes(w, 'big')
+        raise AssertionError
+
+    for cname, widths in ((FLOWMOD + '.IOperationByte', (1,)), (FLOWMOD + '.IOperationByteShort', (1, 2)), (FLOWMOD + '.IOperationByteShortLong', (1, 2, 4))):
         f = model.func(cname + '.encode')
         run.analysed(f)
-        got = []
-        for st in f.node.body:
-            if isinstance(st, ast.If) and isinstance(st.test, ast.Compare) and isinstance(st.test.ops[0], ast.Lt):
-                thr = folder.fold(st.test.comparators[0], mod, None)
-                r = st.body[-1]
-                if isinstance(r, ast.Return) and isinstance(r.value, ast.Tuple):
-                    got.append((thr, folder.fold(r.value.elts[0], mod, None)))
-            elif isinstance(st, ast.Return) and isinstance(st.value, ast.Tuple):
-                got.append((None, folder.fold(st.value.elts[0], mod, None)))
-        run.check(got == want, f.qualname, 'width table %s' % got, f.loc(), 'RFC 8955 4.2.1.1: each value in the shortest width it fits; expected %s' % want)
-        # the packed width matches the announced width
         vp = f.node.args.args[-1].arg
-        fmts = {1: 'bytes([%s])' % vp, 2: "pack('!H', %s)" % vp, 4: "pack('!L', %s)" % vp}
-        okw = True
-        for r in walk_no_nested(f.node):
-            if isinstance(r, ast.Return) and isinstance(r.value, ast.Tuple):
-                w = folder.fold(r.value.elts[0], mod, None)
-                okw = okw and norm(r.value.elts[1]) == fmts.get(w)
-        run.check(okw, f.qualname, 'announced width equals packed width', f.loc(), 'the length bits must describe the bytes that follow')
+        top = 1 << (8 * widths[-1])
+        vals = [v for v in (0, 1, 255, 256, 65535, 65536, (1 << 32) - 1) if v < top]
+        got = {v: eval_function(folder, f, {f.node.args.args[0].arg: {}, vp: v}) for v in vals}
+        want = {v: shortest(v, widths) for v in vals}
+        shown = {v: (r[0] if isinstance(r, tuple) and r else r) for v, r in got.items()}
+        run.check(got == want, f.qualname, 'width by value %s' % shown, f.loc(), 'RFC 8955 4.2.1.1: each value in the shortest width it fits, and the announced width is the packed width; expected %s' % {v: w for v, (w, _) in want.items()})
     co = model.cls(FLOWMOD + '.CommonOperator')
     power = co.assigns.get('power')
     rewop = co.assigns.get('rewop')
@@ -144,9 +142,11 @@ def check(model: Model, run: Run) -> None:
     r = {folder.fold(k, mod, co): folder.fold(v, mod, co) for k, v in zip(rewop.keys, rewop.values)} if isinstance(rewop, ast.Dict) else {}
     run.check(p == {0: 1, 1: 2, 2: 4, 3: 8} and r == {v: k for k, v in p.items()}, co.qualname, 'power %s / rewop %s' % (p, r), co.loc(), 'length bits: 0..3 <-> 1,2,4,8 bytes')
     l2b = model.func(FLOWMOD + '._len_to_bit')
-    run.check(norm(l2b.node.body[-1]) == 'return NumericOperator.rewop[%s] << 4' % l2b.node.args.args[-1].arg, l2b.qualname, norm(l2b.node.body[-1]), l2b.loc(), 'the length field is bits 5-4 of the operator byte')
+    got_b = {w: eval_function(folder, l2b, {l2b.node.args.args[-1].arg: w}) for w in (1, 2, 4, 8)}
+    run.check(got_b == {1: 0x00, 2: 0x10, 4: 0x20, 8: 0x30}, l2b.qualname, 'length bits for 1 / 2 / 4 / 8 octets: %s' % got_b, l2b.loc(), 'the length field is bits 5-4 of the operator byte')
     ln = model.func(FLOWMOD + '.CommonOperator.length')
-    run.check(norm(ln.node.body[-1]) == 'return 1 << ((%s & CommonOperator.LEN) >> 4)' % ln.node.args.args[-1].arg and folder.class_attr(co.qualname, 'LEN') == 0x30, ln.qualname, norm(ln.node.body[-1]), ln.loc(), 'decoder: width = 1 << length bits')
+    got_l = {b_: eval_function(folder, ln, {ln.node.args.args[-1].arg: b_}) for b_ in (0x00, 0x81, 0x10, 0x25, 0x30, 0xB1)}
+    run.check(got_l == {0x00: 1, 0x81: 1, 0x10: 2, 0x25: 4, 0x30: 8, 0xB1: 8} and folder.class_attr(co.qualname, 'LEN') == 0x30, ln.qualname, 'value width for operator bytes: %s' % {hex(k): v for k, v in got_l.items()}, ln.loc(), 'decoder: width = 1 << length bits')
 
     # ------------------------------------------------------------------ R3 component registry
     run.rule('C16.R3', 'component registry: types 1-13 with the RFC 8955 / 8956 names and address families', floor=8)
@@ -188,7 +188,8 @@ def check(model: Model, run: Run) -> None:
     for f in (pr, po):
         bad = [n for n in walk_no_nested(f.node) if isinstance(n, (ast.Break, ast.Continue))]
         run.check(not bad, f.qualname, 'no break/continue in the component walk', f.loc(bad[0]) if bad else f.loc(), 'leaving the walk early keeps the rules parsed so far: a shorter, broader rule')
-    und = [n for n in walk_no_nested(pr.node) if isinstance(n, ast.If) and amatch('V_w not in decode.get(self.afi, {})', n.test) is not None]
+    prl = Loc(model, pr)
+    und = [n for n in walk_no_nested(pr.node) if isinstance(n, ast.If) and amatch('V_w not in decode.get(self.afi, {})', prl.expanded(n.test, keep=[x.id for x in ast.walk(n.test) if isinstance(x, ast.Name)][:1])) is not None]
     run.check(bool(und) and isinstance(und[0].body[-1], ast.Raise), pr.qualname, 'undefined component raises', pr.loc(und[0]) if und else pr.loc(), 'RFC 8955 4.3: an unknown component makes the NLRI malformed')
     # value slice vs announced width
     bp = po.node.args.args[2].arg if len(po.node.args.args) > 2 else '?'
@@ -345,37 +346,28 @@ def flow_length_rule(model: Model, run: Run, folder: Folder) -> None:
     run.check(okc, el.qualname, 'compact form iff length < 240', el.loc(), 'RFC 8955 4.1: one length byte below 240 (first bytes written for 0, 1, 239, 240, 241, 4094, 4095, 4096: %s); a length of 240 written on one byte is 0xF0, which the decoder takes for the start of a two-byte length' % seen)
     run.check(okx and c.get('FLOW_LENGTH_EXTENDED_VALUE') == 0xF0, el.qualname, 'extended form = 0xF000 | length on two bytes', el.loc(), 'RFC 8955 4.1: 0xFnnn (%s)' % seen)
     run.check(top == 4095, el.qualname, 'largest encodable NLRI length is %s' % top, el.loc(), 'RFC 8955 4.1: the two-byte form covers 240 to 4095 inclusive; a rule of exactly 4095 bytes must be encodable and 4096 refused')
-    # decoder
-    unl = Loc(model, un)
-    dparam = un.node.args.args[3].arg if len(un.node.args.args) > 3 else '?'
-    dec = []
-    lenv = None
-    okd = False
-    shift = None
-    for n in walk_no_nested(un.node):
-        if isinstance(n, ast.Assign) and isinstance(n.targets[0], ast.Name):
-            b = amatch('((V_l & E_m) << E_s) + V_x', n.value, {'V_l': n.targets[0].id})
-            if b is not None:
-                dec.append(n)
-                lenv = n.targets[0].id
-                shift = folder.fold(ast.parse(str(b['E_s']), mode='eval').body, mod, None)
-                lowmask = folder.fold(ast.parse(str(b['E_m']), mode='eval').body, mod, None)
-                # the low byte is the next byte of the buffer
-                second = any(isinstance(v, ast.Subscript) and dotted(v.value) == dparam and folder.fold(v.slice, mod, None) == 0 for v in unl.values(str(b['V_x'])))
-                okd = lowmask == 0x0F and second
-    marker = [n for n in walk_no_nested(un.node) if isinstance(n, ast.If) and lenv is not None and amatch('V_l & FLOW_LENGTH_EXTENDED_MASK == FLOW_LENGTH_EXTENDED_VALUE', n.test, {'V_l': lenv}) is not None]
-    okm = bool(marker) and c.get('FLOW_LENGTH_EXTENDED_MASK') == 0xF0 and c.get('FLOW_LENGTH_EXTENDED_VALUE') == 0xF0
-    run.check(okd and okm, un.qualname, 'two-byte form recognised by the 0xF0 nibble, low nibble kept', un.loc(dec[0]) if dec else un.loc(), 'the reader must invert the writer')
-    if shift != 8:
-        run.violation(
-            un.qualname,
-            'high nibble of the two-byte length shifted by %s' % shift,
-            un.loc(dec[0]) if dec else un.loc(),
-            "the encoder writes pack('!H', length | 0xF000): the low nibble of the first byte holds bits 11-8, so the decoder must "
-            'shift it by 8; with %s every FlowSpec NLRI of 240 to 4095 bytes decodes to a length above 65535 and is refused '
-            '(a 301 byte rule f1 2d ... "needs 65581 bytes")' % shift,
-        )
-    else:
-        run.ok('unpack_nlri: high nibble << 8')
-    run.check(any(isinstance(n, ast.If) and lenv is not None and (amatch('V_l > len(V_d)', n.test, {'V_l': lenv, 'V_d': dparam}) is not None or amatch('len(V_d) < V_l', n.test, {'V_l': lenv, 'V_d': dparam}) is not None) and isinstance(n.body[-1], ast.Raise) for n in walk_no_nested(un.node)), un.qualname, 'declared length checked against the data left', un.loc(), 'a truncated NLRI must be refused')
+    # decoder: evaluated on NLRIs of 5, 240, 301 and 4095 octets (with octets of the next NLRI behind them) - whatever the
+    # locals are called and whether the prefix is read in place or in a helper, some local must hold exactly the announced
+    # payload and some local exactly what follows it when the rules are about to be parsed
+    from ..evalfn import Raised
 
+    dparam = un.node.args.args[3].arg if len(un.node.args.args) > 3 else '?'
+    first = {un.node.args.args[0].arg: {}} if un.node.args.args else {}
+    seen_d = {}
+    okd = True
+    for n, prefix, tail in ((5, bytes([5]), b'\xaa\xbb'), (240, bytes([0xF0, 0xF0]), b'\xaa'), (301, bytes([0xF1, 0x2D]), b''), (4095, bytes([0xFF, 0xFF]), b'\xcc' * 3)):
+        payload = bytes((i * 7 + n) % 251 for i in range(n))
+        envd: dict = {}
+        r = eval_function(folder, un, dict(first, **{dparam: prefix + payload + tail}), env_out=envd, outcomes=True, max_steps=200)
+        vals = [v for k, v in envd.items() if isinstance(v, bytes) and k != dparam]
+        good = not isinstance(r, Raised) and payload in vals and (tail in vals or envd.get(dparam) == tail)
+        seen_d[n] = 'payload and rest found' if good else ('refused' if isinstance(r, Raised) else 'locals %s' % sorted((k, len(v)) for k, v in envd.items() if isinstance(v, bytes)))
+        okd = okd and good
+    run.check(okd, un.qualname, 'length prefix decoded for NLRIs of 5 / 240 / 301 / 4095 octets: %s' % seen_d, un.loc(), "the reader must invert the writer: one octet below 240, else 0xFnnn on two octets with the low nibble of the first holding bits 11-8 (a shift other than 8 turns a 301 octet rule `f1 2d` into one that needs 65581 octets)")
+    oks = True
+    seen_t = {}
+    for label, buf in (('5 announced, 3 present', bytes([5]) + bytes(3)), ('first octet of a two octet length alone', bytes([0xF0])), ('300 announced, 10 present', bytes([0xF1, 0x2C]) + bytes(10)), ('nothing', b'')):
+        r = eval_function(folder, un, dict(first, **{dparam: buf}), outcomes=True, max_steps=200)
+        seen_t[label] = 'refused' if isinstance(r, Raised) else str(r)[:40]
+        oks = oks and isinstance(r, Raised)
+    run.check(oks, un.qualname, 'declared length checked against the data left: %s' % seen_t, un.loc(), 'a truncated NLRI must be refused')
